@@ -502,7 +502,7 @@ func checkBuilderWiring(c *Ctx, r *Report) {
 				ok = false
 			}
 			ct, hasT := p.Locals["local:complit.ConfirmedTimeout"]
-			if (p.Assume["("+tmo+">0)"] == "true") != hasT {
+			if (p.Lit("("+tmo+">0)") == "true") != hasT {
 				ok = false
 			}
 			if hasT && ct != "strconv.Itoa("+tmo+")" {
